@@ -634,7 +634,7 @@ func main() {
 		out.Close(args.Stats)
 		return
 	}
-	out.Rule = "sq: exhaustive lists/arrays up to length L over {lit, ~x, ~@empty, ~@1, ~@3, ~(compound), ~@non-list} bare and nested in list/array/hash + random templates (depth<=4, hashes, near-miss unquote forms, failing expressions) x 3 routes; mac/call: random template-bodied macros x argument forms x 8 call sites"
+	out.Rule = "sq: exhaustive lists/arrays up to length L over {lit, ~x, ~@empty, ~@1, ~@3, ~(compound), ~@non-list} bare and nested in list/array/hash + random templates (depth<=4, hashes, near-miss unquote forms, failing expressions) x 3 routes; mac/call: random template-bodied macros x argument forms x 18 call sites (10 statement/argument sites + 8 value-consuming sites); value macros: 19 expansions that are (), atoms, symbols, empty array/begin/newScope x all sites; soak: histories of 1..300 failed expansions (expander error, compile error, run-time error) followed by correct macro calls, with the scalar state of the interpreter before/after; gen: random function bodies over begin/let/letseq/newScope/for/cond/def/set/break/continue/calls/self calls with 12 macros at any depth, compiled only, projected bytecode against MacroGen.gen_fn and complete bytecode against the hand-expanded function"
 	nRandom, nMacros, exLen, nRec, nHist := 2500, 250, 3, 300, 150
 	if args.Tier == "thorough" {
 		nRandom, nMacros, exLen, nRec, nHist = 40000, 3000, 4, 5000, 2500
@@ -660,6 +660,17 @@ func main() {
 	}
 	h.recStream(nRec)
 	h.macros(nMacros)
+	h.valueMacros()
+	soaks := []int{1, 3, 17, 70, 300}
+	nGen := 1500
+	if args.Tier == "thorough" {
+		soaks = append(soaks, 1100, 5000)
+		nGen = 30000
+	}
+	for i, n := range soaks {
+		h.soak(n, i)
+	}
+	h.genStream(nGen)
 	h.histories(nHist)
 	out.Extra["interpreters"] = h.envN
 	pb, _ := json.MarshalIndent(h.pools, "", " ")
@@ -688,6 +699,10 @@ func (h *H) replay(path string) {
 	d := &depthRec{}
 	d.install(h.env)
 	impl := "NO-PROGRAM"
+	if strings.HasPrefix(rp.Input, "gen|") {
+		h.out.Case(rp.Input, replayGen(rp.Program), true, "replay")
+		return
+	}
 	if strings.HasPrefix(rp.Input, "hist|") {
 		h.out.Case(rp.Input, replayHist(rp.Program), true, "replay")
 		return
